@@ -51,6 +51,8 @@ pub enum Op {
     StageSave(usize),
     /// replay_stage(saved) on replica r (the export saved last on that replica)
     StageReplay(usize),
+    /// replay on replica .0 the stage export saved on replica .1
+    StageReplayFrom(usize, usize),
 }
 
 impl Op {
@@ -75,7 +77,8 @@ impl Op {
             | Op::ObjRemove(r, _)
             | Op::CopyDeltas(r, _)
             | Op::StageSave(r)
-            | Op::StageReplay(r) => *r,
+            | Op::StageReplay(r)
+            | Op::StageReplayFrom(r, _) => *r,
         }
     }
     pub fn short(&self) -> String {
@@ -100,6 +103,7 @@ impl Op {
             Op::CopyDeltas(r, s) => format!("copydeltas({}<-{})", r, s),
             Op::StageSave(r) => format!("stagesave({})", r),
             Op::StageReplay(r) => format!("stagereplay({})", r),
+            Op::StageReplayFrom(r, s) => format!("stagereplay({}<-saved on {})", r, s),
         }
     }
 }
@@ -141,6 +145,9 @@ pub struct Replica {
     pub last_clean: Option<Value>,
     /// stage export saved by Op::StageSave
     pub saved_stage: Option<Option<Value>>,
+    /// blocks the replica had applied when the stage was saved (a foreign replica may replay the export only if
+    /// it has applied them too: an export is a set of changes relative to that history)
+    pub saved_base: BTreeSet<String>,
 }
 
 #[derive(Clone, Debug, PartialEq)]
@@ -218,6 +225,7 @@ impl World {
                 head_views: vec![],
                 last_clean: None,
                 saved_stage: None,
+                saved_base: BTreeSet::new(),
             });
         }
         World {
@@ -422,7 +430,8 @@ impl World {
             }
             Op::ObjPut(_, n) => {
                 let m = &self.reps[r].m;
-                let o = json!({"n": n}).as_object().unwrap().clone();
+                // 100 + k: exactly the content {"v": k} of an array element of the menus
+                let o = if *n >= 100 { json!({"v": n - 100}) } else { json!({"n": n}) }.as_object().unwrap().clone();
                 call(&label, || {
                     m.update_object("obj", o)
                         .map(|x| x.unwrap_or_default())
@@ -460,7 +469,9 @@ impl World {
                 match call(&label, || m.stage().map_err(|e| e.to_string())) {
                     Ok(Ok(s)) => {
                         let d = s.as_ref().map(|v| sha_hex(v.to_string().as_bytes())[..8].to_string()).unwrap_or_else(|| "none".into());
+                        let base: BTreeSet<String> = m.verif_delta_status().into_iter().filter(|(_, st)| *st == "applied").map(|(k, _)| k).collect();
                         self.reps[r].saved_stage = Some(s);
+                        self.reps[r].saved_base = base;
                         Ok(Ok(d))
                     }
                     Ok(Err(e)) => Ok(Err(e)),
@@ -471,6 +482,20 @@ impl World {
                 let Some(s) = self.reps[r].saved_stage.clone() else {
                     return OpOut::NotEnabled("no saved stage".into());
                 };
+                let m = &self.reps[r].m;
+                call(&label, || m.replay_stage(&s).map(|_| String::new()).map_err(|e| e.to_string()))
+            }
+            Op::StageReplayFrom(_, src) => {
+                if *src >= self.reps.len() {
+                    return OpOut::NotEnabled("bad source".into());
+                }
+                let Some(s) = self.reps[*src].saved_stage.clone() else {
+                    return OpOut::NotEnabled("no saved stage".into());
+                };
+                let mine: BTreeSet<String> = self.reps[r].m.verif_delta_status().into_iter().filter(|(_, st)| *st == "applied").map(|(k, _)| k).collect();
+                if !self.reps[*src].saved_base.is_subset(&mine) {
+                    return OpOut::NotEnabled("the export is relative to a history this replica has not applied".into());
+                }
                 let m = &self.reps[r].m;
                 call(&label, || m.replay_stage(&s).map(|_| String::new()).map_err(|e| e.to_string()))
             }
